@@ -24,6 +24,7 @@
 -/
 import ControlModel.Gen.C19Writer
 import ControlModel.Proofs.Writer
+import ControlModel.Proofs.Registry
 
 open Writer
 
@@ -479,6 +480,163 @@ theorem C19_fixed_model_flushes_and_terminates (sched : List Step) :
   have hc := h.2 hnp
   exact ⟨hc, C19_flush_fixed fixedCfg rfl sched hc⟩
 
+
+/-! ## the registry of the core: per writer = per topic
+
+  `the.EventWriterWithTopic(t)` hands every publisher of topic `t` a writer, `the.ClearEventWriters()`
+  closes the registered writers at shutdown (core/the/eventwriter.go, Model/Registry.lean).  The
+  statements above are about ONE writer; they are statements about a topic because, for every
+  interleaving of any number of callers, all callers of a topic are handed the same writer between
+  two shutdowns and every writer ever handed out is closed by the next shutdown. -/
+
+/-- The registry model's exclusive section is the code's: one mutex (a `sync.Mutex`, nothing in
+    core/the takes it in shared or try mode), `createOrGetWriter` takes it with `Lock` as its first
+    statement and releases it by a deferred `Unlock` — the lookup (`if w, ok := writers[topic]; ok
+    { return w }`, the first statement that touches the map), the creation and the registration
+    (`writers[topic] = <constructor>`; `return writers[topic]`) are one critical section; every
+    function of the package that touches the map has that shape and the map is not mentioned
+    outside functions; `ClearEventWriters` holds the mutex too, ranges over the map calling
+    `Close()` on every value, nothing leaves the loop early, and then empties the map. -/
+theorem C19_registry_is_code :
+    Registry.codeCfg = { exclusive := Gen.C19.regGetHoldsLock && Gen.C19.regPlainMutex &&
+                                      (Gen.C19.regSharedLockCalls == 0) } ∧
+    Gen.C19.regMutexVars = 1 ∧ Gen.C19.regMapUsersLocked = Gen.C19.regMapUsers ∧
+    Gen.C19.regMapUsesOutside = 0 ∧ Gen.C19.regGetLookupFirst = true ∧ Gen.C19.regGetRegisters = true ∧
+    Gen.C19.regClearHoldsLock = true ∧ Gen.C19.regClearClosesEach = true ∧ Gen.C19.regClearEmpties = true := by
+  decide
+
+/-- Mutual exclusion, for every schedule: two callers that are inside `createOrGetWriter` /
+    `ClearEventWriters` are the same caller — a call of either function is atomic for all others. -/
+theorem C19_registry_get_is_atomic (sched : List Registry.Step) (c c' : Registry.Caller) :
+    let s := Registry.run Registry.codeCfg Registry.init sched
+    s.pc c ≠ .idle → s.pc c' ≠ .idle → c = c' := by
+  intro s hc hc'
+  exact (Registry.inv_reach sched).one hc hc'
+
+/-- **One writer per topic between two shutdowns**, for every interleaving of any number of callers,
+    topics and shutdowns: two results handed out for the same topic since the last shutdown are the
+    same writer, it is the one the map holds for the topic (so every later look-up returns it and the
+    next shutdown closes it); `allSame` / at most one pipeline per topic. -/
+theorem C19_registry_one_writer_per_topic (sched : List Registry.Step) (t : Registry.Topic) :
+    let s := Registry.run Registry.codeCfg Registry.init sched
+    (∀ c c' w w', (c, t, w) ∈ s.handed → (c', t, w') ∈ s.handed → w = w') ∧
+    (∀ c w, (c, t, w) ∈ s.handed → Registry.find s.reg t = some w) ∧
+    Registry.allSame (Registry.handedFor s t) = true ∧ (Registry.writersOf s t).length ≤ 1 := by
+  intro s
+  have h := Registry.inv_reach sched
+  have hreg : ∀ c w, (c, t, w) ∈ s.handed → Registry.find s.reg t = some w :=
+    fun c w hm => h.handedReg (c, t, w) hm
+  have hsame : ∀ w w', w ∈ Registry.handedFor s t → w' ∈ Registry.handedFor s t → w = w' := by
+    intro w w' hw hw'
+    obtain ⟨c, hc⟩ := Registry.handedFor_mem hw
+    obtain ⟨c', hc'⟩ := Registry.handedFor_mem hw'
+    have a := hreg c w hc
+    have b := hreg c' w' hc'
+    rw [a] at b; exact Option.some.inj b
+  refine ⟨?_, hreg, ?_, ?_⟩
+  · intro c c' w w' hm hm'
+    have a := hreg c w hm
+    have b := hreg c' w' hm'
+    rw [a] at b; exact Option.some.inj b
+  · cases hl : Registry.handedFor s t with
+    | nil => rfl
+    | cons a rest =>
+      simp only [Registry.allSame, List.headD_cons, List.all_eq_true, beq_iff_eq]
+      intro x hx
+      exact hsame x a (by rw [hl]; exact hx) (by rw [hl]; simp)
+  · cases hl : Registry.handedFor s t with
+    | nil => simp [Registry.writersOf, hl]
+    | cons a rest =>
+      have := Registry.eraseDups_of_all_eq (Registry.handedFor s t) a
+        (fun x hx => hsame x a hx (by rw [hl]; simp))
+      simp only [Registry.writersOf]
+      rcases this with h1 | h1 <;> simp [h1]
+
+/-- **No writer is orphaned**, for every interleaving: every writer ever handed to a caller has
+    been closed by a shutdown or is still registered; the loop of the next shutdown closes every
+    registered writer, so after it EVERY writer ever handed out is closed; and whenever the map is
+    empty (right after a shutdown) nothing that was handed out is still open. -/
+theorem C19_registry_no_orphan (sched : List Registry.Step) :
+    let s := Registry.run Registry.codeCfg Registry.init sched
+    (∀ w ∈ s.everHanded, w ∈ s.closed ∨ w ∈ Registry.vals s.reg) ∧
+    (∀ k, Registry.enabled Registry.codeCfg s (.closeAll k) = true →
+        ∀ w ∈ (Registry.step Registry.codeCfg s (.closeAll k)).everHanded,
+          w ∈ (Registry.step Registry.codeCfg s (.closeAll k)).closed) ∧
+    (s.reg = [] → ∀ w ∈ s.everHanded, w ∈ s.closed) := by
+  intro s
+  have h := Registry.inv_reach sched
+  refine ⟨h.noOrphan, ?_, ?_⟩
+  · intro k hen w hw
+    simp only [Registry.step, hen, if_true, Registry.fire] at hw ⊢
+    rcases h.noOrphan w hw with h1 | h1
+    · exact List.mem_append.mpr (Or.inl h1)
+    · exact List.mem_append.mpr (Or.inr h1)
+  · intro hreg w hw
+    rcases h.noOrphan w hw with h1 | h1
+    · exact h1
+    · rw [hreg] at h1; exact absurd h1 (by simp [Registry.vals])
+
+/-- No writer is closed twice (a second `Close` would close a closed channel), and a registered
+    writer — the one publishers are being handed — is never a closed one; for every configuration
+    and every schedule. -/
+theorem C19_registry_closes_once (cfg : Registry.Cfg) (sched : List Registry.Step) :
+    let s := Registry.run cfg Registry.init sched
+    s.closed.Nodup ∧ (∀ w ∈ Registry.vals s.reg, w ∉ s.closed) ∧ (Registry.vals s.reg).Nodup := by
+  intro s
+  have h := Registry.fresh_reach cfg sched
+  exact ⟨h.closedNodup, h.disjoint, h.regNodup⟩
+
+/-- The exclusive section is needed: in a registry whose callers can be between their lookup and
+    their registration at the same time (`sharedCfg`: a shared-mode or unlocked lookup), two callers
+    asking for one fresh topic together are handed two writers, the second registration overwrites
+    the first, and after a complete shutdown the first writer — handed to a publisher — is neither
+    closed nor registered: both statements above fail. -/
+theorem C19_registry_needs_exclusive_section :
+    (¬ ∀ (sched : List Registry.Step) (t : Registry.Topic),
+        Registry.allSame (Registry.handedFor (Registry.run Registry.sharedCfg Registry.init sched) t) = true) ∧
+    (¬ ∀ (sched : List Registry.Step),
+        let s := Registry.run Registry.sharedCfg Registry.init sched
+        ∀ w ∈ s.everHanded, w ∈ s.closed ∨ w ∈ Registry.vals s.reg) := by
+  refine ⟨?_, ?_⟩
+  · intro h
+    have := h [.enter 0 7, .enter 1 7, .look 0, .look 1, .create 0, .create 1, .ret 0, .ret 1] 7
+    revert this; decide
+  · intro h
+    have := h ([.enter 0 7, .enter 1 7, .look 0, .look 1, .create 0, .create 1, .ret 0, .ret 1] ++
+               Registry.clearCall 2) 0
+    revert this; decide
+
+/-- **The per-writer statements lifted to a topic.**  For every interleaving of registry calls and
+    whatever the writers do (`wsched w` = any schedule of writer `w`: any producers, broker latency,
+    Close instant): the events of topic `t` in the current epoch go through `writersOf s t`, which
+    is at most ONE pipeline; so what the broker gets for the topic is a prefix of what was accepted
+    for it, every producer's events once and in order; and when the `Close` calls of the shutdown
+    have returned for the topic's writers, everything accepted for the topic has been delivered. -/
+theorem C19_topic_order_and_flush (sched : List Registry.Step) (wsched : Registry.WId → List Step)
+    (t : Registry.Topic) :
+    let s := Registry.run Registry.codeCfg Registry.init sched
+    let ws := Registry.writersOf s t
+    let st := fun w => run codeCfg init (wsched w)
+    let topicDelivered := (ws.map fun w => delivered (st w)).flatten
+    let topicPubs := (ws.map fun w => (st w).pubs).flatten
+    ws.length ≤ 1 ∧ topicDelivered <+: topicPubs ∧ orderedOnce topicDelivered = true ∧
+    ((∀ w ∈ ws, (st w).closeCompleted = true) → topicDelivered = topicPubs) := by
+  intro s ws st topicDelivered topicPubs
+  have hlen : ws.length ≤ 1 := (C19_registry_one_writer_per_topic sched t).2.2.2
+  refine ⟨hlen, ?_⟩
+  match hws : ws, hlen with
+  | [], _ =>
+    simp only [topicDelivered, topicPubs, hws, List.map_nil, List.flatten_nil]
+    exact ⟨List.prefix_refl _, by decide, fun _ => trivial⟩
+  | [w], _ =>
+    have hn := C19_no_dup_no_reorder codeCfg (wsched w)
+    simp only [topicDelivered, topicPubs, hws, List.map_cons, List.map_nil, List.flatten_cons, List.flatten_nil,
+      List.append_nil]
+    refine ⟨hn.2.2.2.1, hn.2.2.2.2.2.2, ?_⟩
+    intro hc
+    exact C19_flush_code (wsched w) (hc w (by simp))
+  | _ :: _ :: _, h => simp at h
+
 /-! ## non-vacuity -/
 
 set_option maxRecDepth 8192 in
@@ -509,4 +667,17 @@ example :
     snapOf c s 2 [0, 1] = { acc := [2, 1], chan := 2, hand := 1, buf := 0, written := 0, blocked := [0, 1] } ∧
     snapOk c.cap (snapOf c s 2 [0, 1]) = true ∧
     snapOk 2 { acc := [3, 2], chan := 2, hand := 1, buf := 0, written := 0, blocked := [] } = false := by
+  decide
+
+/-- The registry theorems are not vacuous: callers 0 and 1 ask for the fresh topic 7 together — the
+    second `enter` does not happen while the first caller holds the mutex — and caller 2 for topic 8;
+    0 creates writer 0, 1 is handed the same writer on its hit, 2 gets writer 1; the shutdown by
+    caller 3 closes both; then topic 7 is looked up again and gets a NEW writer, which is open. -/
+example :
+    let s := Registry.run Registry.codeCfg Registry.init
+      ([.enter 0 7, .enter 1 7, .look 0, .create 0, .enter 2 8, .ret 0] ++ Registry.getCall 1 7 ++
+       Registry.getCall 2 8)
+    let s' := Registry.run Registry.codeCfg s (Registry.clearCall 3 ++ Registry.getCall 1 7)
+    s.handed = [(0, 7, 0), (1, 7, 0), (2, 8, 1)] ∧ Registry.writersOf s 7 = [0] ∧ s.reg = [(7, 0), (8, 1)] ∧
+    s'.closed = [0, 1] ∧ s'.everHanded = [0, 0, 1, 2] ∧ s'.handed = [(1, 7, 2)] ∧ s'.reg = [(7, 2)] := by
   decide
